@@ -38,12 +38,13 @@ CFG = {
                   "there is that model's transcription of the crate) (shown jointly satisfiable by a toy instance, C12_laws_satisfiable; exercised, not "
                   "proved, on the real crates); 'a modified container / another password is rejected' is proved only in the functional form "
                   "(accepted => exact encryption image; modified tag => Err) — computational unforgeability is a labelled per-instance premise of "
-                  "C12_emip3_rejects_modified; 'verification fails under another key or message' is tested, not proved; the hook H12 pass-throughs; extraction and "
+                  "C12_emip3_rejects_modified, and 'another password' is rejected only if it derives another key: PBKDF2-HMAC maps P and P followed by zero bytes (and an over-long password and its "
+                  "SHA-512 digest) to the SAME key, so those are accepted — stated limitation, property of the external KDF (C12_emip3_password_only_through_key); 'verification fails under another key or message' is tested, not proved; the hook H12 pass-throughs; extraction and "
                   "OCaml/Rust glue; harness built with debug assertions. No axioms.",
     "theorems": ["C12_laws_satisfiable", "C12_bech32_laws_proved", "C12_witness_signs_hash", "C12_witness_bytes_sign_hash", "C12_pubkey_hash", "C12_xprv128_roundtrip", "C12_xprv128_unfixed_refuted",
                  "C12_key_encodings_roundtrip", "C12_key_encodings_roundtrip_any_codec", "C12_hash_bech32_unfixed_refuted", "C12_hrp_checked", "C12_hrp_checked_any_codec", "C12_soft_derivation_commutes",
                  "C12_hardened_from_public_refused", "C12_bip39_root_valid", "C12_emip3_roundtrip", "C12_emip3_empty_plaintext_unfixed_refuted",
-                 "C12_emip3_accepts_only_encrypt_images", "C12_emip3_rejects_modified", "C12_emip3_rejects_modified_tag",
+                 "C12_emip3_accepts_only_encrypt_images", "C12_emip3_rejects_modified", "C12_emip3_rejects_modified_tag", "C12_emip3_password_only_through_key",
                  "C12_model_satisfies_judge", "C12_sequences_stepwise"],
     "allowed_axioms": [],
     "compare": "exact",
@@ -69,6 +70,10 @@ CFG = {
     "assumptions": LAWS + [
         "the correspondence run TESTS (does not prove) on the real crates: the laws above, verify = false under another message / key, "
         "decryption failure for every damaged container / other password, validity of derived keys to depth 6",
+        "LIMITATION of 'an error under any other password': decryption sees the password only through the PBKDF2 key (C12_emip3_password_only_through_key); "
+        "PBKDF2-HMAC-SHA512 maps P and P followed by zero bytes to the same key (HMAC zero-pads its key) and a password longer than 128 bytes to the key of its "
+        "SHA-512 digest, so such 'other' passwords ARE accepted by the unchanged code (observed in every run, sequence pattern related-passwords); property of the "
+        "external KDF, not of the wrapper; the premise of C12_emip3_rejects_modified is false for those pairs",
         "C12_emip3_rejects_modified carries the per-instance premise 'the offered container is not itself a complete valid AEAD encryption under the key derived "
         "from the offered password and the carried salt' (computational unforgeability; not a mathematical truth)",
         "the harness is a debug-assertion build: an extended scalar >= 2^255 would trip cryptoxide's debug assertion (it yields non-verifying signatures in release); "
